@@ -97,8 +97,11 @@ def sampler_config(draw, kinds=ALL_KINDS, bounds="maybe", max_d=4, temps=(1.0, 1
         special = draw(st.sampled_from(["none", "none", "none", "none", "int_start", "zero_prob_start"]))
         if special == "int_start" and cfg["target"]["kind"] in ("gauss", "laplace", "corrgauss"):
             cfg["int_start"] = True
-        elif special == "zero_prob_start" and cfg["target"]["kind"] == "moat" and kind != "ensemble":
+        elif special == "zero_prob_start" and cfg["target"]["kind"] == "moat" and kind != "ensemble" and d <= 3:
             cfg["zero_prob_start"] = True
+            # (with the adaptation out of reach - below - the widths must be usable as they are: a 9-parameter Metropolis
+            # proposal of width 6 is never accepted, and a long advance then runs into the evaluation budget)
+            cfg["widths"] = [min(float(w_), 1.0) for w_ in cfg["widths"]]
             # (the Gibbs-family constructor means to reject such a start but only builds the exception; a NaN
             # acceptance probability then poisons the width adaptation at its next check - keep that check out of
             # reach so that the unchanged library stays well-defined on these histories)
@@ -363,6 +366,10 @@ def runaway_violation(h, op, exc):
             cause = "proposal_width_overflow"
     except Exception:  # noqa
         pass
+    if cause == "unknown" and int(h.cfg.get("knobs", {}).get("chk_int", 0)) >= 10 ** 8:
+        # the harness itself put the width adaptation out of reach (starts at log-density -inf): a sampler that cannot
+        # adapt unusable widths is slow by construction, not by a defect
+        return None
     return dict(invariant="op.runaway", key=dict(cause=cause, sampler=h.kind),
                 detail="%s: %r did not complete within its evaluation budget (%s); cause: %s" % (h.kind, op, exc, cause))
 
